@@ -49,7 +49,11 @@ func (w *world) fork() {
 	// then with --x-crisis-skip-assert-invariants, as nodes commonly run
 	d, err := simnet.NewReplicaFromExport("D", exp, w.now, true)
 	if err != nil {
-		w.report("import-runs", "skip-genesis-invariants", "height %d: a fresh replica (genesis invariant checks skipped) rejects A's export: %.600v", w.h, err)
+		sig := "skip-genesis-invariants"
+		if strings.Contains(err.Error(), "twap record p0 and p1 last spot price must be zero") {
+			sig = "skip-genesis-invariants/twap-record-validation"
+		}
+		w.report("import-runs", sig, "height %d: a fresh replica (genesis invariant checks skipped) rejects A's export: %.600v", w.h, err)
 		return
 	}
 	w.D, w.dLive = d, true
